@@ -15,21 +15,16 @@ def install(reg):
             "all_of_them": "len(arg2) == count_if(measurements, lambda m: cat(m.value) >= 2)",
             "for_this_file": "arg1 is path",
             "into_this_result": "arg0 is check_result",
-        }},
-        raises={"UnicodeDecodeError": None},   # C02 does not claim decoding; C03/C12 check it with raises={}
-        props=("C02", "C12"),
-    )
-    reg.contract(
-        C + "_handle_file_path", params={"path": "ext:Path", "check_result": "CheckResult", "excludes_spec": "ext:PathSpec"},
-        returns="None",
-        modifies=["check_result.hard_to_maintain", "check_result.unmaintainable", "check_result.file_list[]"],
-        raises={"UnicodeDecodeError": None},
-        props=("C12",),
+        }, "_read_file": {"same_decoding_as_scan": "arg0 is path"},
+           "lex": {"whole_text_with_comments_as_scan_does": "arg0 is lexer and arg1 == call_result('_read_file') and not arg2"},
+           "scan_file": {"of_the_lexed_tokens": "arg0 is call_result('lex')"}},
+        raises={},
+        props=("C02", "C12", "C03"),
     )
     reg.contract(
         C + "check_command", params={"paths": "list[ext:Path]", "quiet": "bool"}, returns="None",
         modifies=["*"],
-        raises={"Exit": None, "UnicodeDecodeError": None, "ValueError": None},
+        raises={"Exit": None}, assume_absent={"IndexError": "os.walk never yields empty names, so f[0] is defined"},
         ensures={"always_exits_through_typer": "False"},
         ensures_raise={"Exit": {
             "status_1_iff_unmaintainable": "exc.code == (1 if check_result.unmaintainable > 0 else 0)",
